@@ -43,15 +43,22 @@ type Prog struct {
 		From *ssa.Function
 		E    Edge
 	}
-	sentinels   map[*ssa.Global]int
-	fstores     map[fieldKey][]*ssa.Store
-	refEdges    map[*ssa.Function][]*ssa.Function
-	LoadS       float64
-	SSAS        float64
-	CGS         float64
-	Overlay     map[string][]byte
-	anchors     map[string]Fingerprint
-	revRen      map[string]string
+	sentinels map[*ssa.Global]int
+	fstores   map[fieldKey][]*ssa.Store
+	refEdges  map[*ssa.Function][]*ssa.Function
+	LoadS     float64
+	SSAS      float64
+	CGS       float64
+	Overlay   map[string][]byte
+	anchors   map[string]Fingerprint
+	revRen    map[string]string
+	moved     map[string]*ssa.Function
+	gdepth    int
+	moving    bool
+	canonFn   map[*ssa.Function]string
+	renMemo   map[string]*ssa.Function
+	// Norm describes what the normaliser did to the tree before this load (inlined fresh helpers), for the evidence.
+	Norm        []string
 	anchorTab   *AnchorTable
 	canonDone   bool
 	canonField  map[*types.Var]string
@@ -178,9 +185,23 @@ func FuncKey(f *ssa.Function) string {
 	return s
 }
 
-// ShortKey drops the module prefix for reports.
+// ShortKey drops the module prefix for reports. A function that was renamed since the reviewed tree is written under
+// its recorded name, so that descriptions, constructs and name tests do not depend on the rename.
 func ShortKey(f *ssa.Function) string {
-	s := FuncKey(f)
+	if f != nil && f.Parent() != nil {
+		// a function literal: parent's key + $k
+		top := Outermost(f)
+		ck := CanonKeyOf(top)
+		fk := FuncKey(f)
+		if tk := FuncKey(top); strings.HasPrefix(fk, tk) {
+			return shortOf(ck + fk[len(tk):])
+		}
+		return shortOf(fk)
+	}
+	return shortOf(CanonKeyOf(f))
+}
+
+func shortOf(s string) string {
 	s = strings.ReplaceAll(s, Module+"/", "")
 	s = strings.ReplaceAll(s, Core+"/", "core/")
 	return s
@@ -193,7 +214,10 @@ func (p *Prog) Fn(pkgPath, recv, name string) *ssa.Function {
 		return f
 	}
 	if strings.HasPrefix(pkgPath, Module) {
-		return p.renamed(pkgPath, recv, name)
+		if f := p.renamed(pkgPath, recv, name); f != nil {
+			return f
+		}
+		return p.mergedInto(pkgPath, recv, name)
 	}
 	return nil
 }
